@@ -49,6 +49,10 @@ def _monotonic_factorization(arr_list, total_len):
     arr_num = 0
     arr = arr_list[arr_num]
 
+    if arr[0] != arr[0]:
+        # leading null (NaN): it has no code, so no prefix can be used
+        return 0, codes, labels[:0]
+
     labels[0] = arr[0]
     n_labels = 1
     codes[0] = 0
@@ -63,7 +67,8 @@ def _monotonic_factorization(arr_list, total_len):
             cur_arr_pos = 0
 
         x = arr[cur_arr_pos]
-        if x < prev:
+        if x < prev or x != x:
+            # out of order, or a null (NaN), which compares false both ways
             return i, codes, labels[:n_labels]
         elif x > prev:
             labels[n_labels] = x
@@ -143,6 +148,9 @@ def monotonic_factorization(arr: ArrayType1D) -> Tuple[int, np.ndarray, pd.Index
 
     total_len = len(arr)
     cutoff, codes, labels = _monotonic_factorization(arr_list, total_len)
+    if pd_type.kind == "M" and cutoff > 0 and labels[0] == np.iinfo(np.int64).min:
+        # leading NaT: sorts first as an integer but is a null, not a label
+        cutoff, labels = 0, labels[:0]
     # Convert labels to pd.Index with proper dtype handling
     if pd_type.kind == "M":
         labels = pd.Index(labels.view(int), dtype=pd_type, copy=False)
